@@ -98,9 +98,23 @@ def inventory(tree):
               and isinstance(st.targets[0], (ast.Tuple, ast.List)) and isinstance(st.value, (ast.Tuple, ast.List))]
         if ts:
             tuple_assigns[q] = ts
-    return {"tuple_assigns": tuple_assigns,
+    return {"reflection": _reflection_count(tree), "tuple_assigns": tuple_assigns,
             "functions": sorted(set(funcs)), "globals": sorted(set(globs)), "literal_loops": loops, "private_params": params,
             "call_positional": call_pos, "call_keywords": {k: sorted(v) for k, v in call_kw.items()}, "literal_comps": comps, "dict_comps": dict_comps}
+
+
+def _reflection_count(tree):
+    """how often a module reaches names by reflection (instance / module namespaces, classes built by type(..), setattr): bindings
+    made that way are invisible to the passes that look for `name = value`"""
+    n = 0
+    for x in ast.walk(tree):
+        if isinstance(x, ast.Attribute) and x.attr in ("__dict__", "__class__", "__bases__", "__setattr__", "__delattr__", "__getattribute__", "__slots__"):
+            n += 1
+        elif isinstance(x, ast.Call) and isinstance(x.func, ast.Name) and x.func.id in ("vars", "globals", "locals", "setattr", "delattr", "exec", "eval"):
+            n += 1
+        elif isinstance(x, ast.Call) and isinstance(x.func, ast.Name) and x.func.id == "type" and len(x.args) == 3:
+            n += 1
+    return n
 
 
 def _callee_name(call):
@@ -616,6 +630,10 @@ def _literal_iter(st):
         items = [ast.Tuple(elts=[k, v], ctx=ast.Load()) for k, v in zip(it.func.value.keys, it.func.value.values)]
     if items is None or len(items) > MAX_UNROLL or any(isinstance(x, ast.Starred) for x in items):
         return None
+    # the items are written into the body by name: one that is not used there would vanish with its side effect, one used twice
+    # would be evaluated twice - they must be free of calls (constants, names, attributes, subscripts, arithmetic, slice(..))
+    if not all(_is_literal(x) or _effect_free_argument(x) for x in items):
+        return None
     subs = []
     for item in items:
         m = {}
@@ -1044,6 +1062,7 @@ def inline_new_helpers(tree, ref_funcs, rel=None):
         return not any(isinstance(n, (ast.Yield, ast.YieldFrom, ast.Await, ast.Global, ast.Nonlocal)) or
                        (isinstance(n, (ast.FunctionDef, ast.AsyncFunctionDef, ast.Lambda, ast.ClassDef)) and n is not fn) for n in ast.walk(fn)) \
             and not fn.decorator_list
+    new = {q: fn for q, fn in new.items() if not fn.decorator_list}      # a decorator may wrap, guard or replace the function
     info = {}
     for q, fn in new.items():
         kind = _helper_kind(fn)
@@ -1089,6 +1108,13 @@ def inline_new_helpers(tree, ref_funcs, rel=None):
     uid = [0]
 
     scope = {"bound": set(), "self_ok": False, "groups": lambda: {}}
+    _free = {}
+
+    def free_names(fn):
+        if id(fn) not in _free:
+            own = _all_bound_names(fn)
+            _free[id(fn)] = {x.id for x in ast.walk(fn) if isinstance(x, ast.Name) and isinstance(x.ctx, ast.Load)} - own
+        return _free[id(fn)]
 
     def match(call, cls):
         """helper key for a call node inside class `cls` (or None).  The name must mean the helper where the call stands: a
@@ -1096,11 +1122,16 @@ def inline_new_helpers(tree, ref_funcs, rel=None):
         `self` must be the method's own first parameter"""
         f = call.func
         if isinstance(f, ast.Name) and f.id in info and not info[f.id][3] and f.id not in scope["bound"]:
+            # the names the helper reads from the module must not be locals of the caller (there they would mean something else)
+            if free_names(info[f.id][0]) & scope["bound"]:
+                return None
             return f.id, None
         if isinstance(f, ast.Name) and scope.get("q") and f"{scope['q']}.{f.id}" in nested and f"{scope['q']}.{f.id}" in info:
             return f"{scope['q']}.{f.id}", None
         if isinstance(f, ast.Attribute) and isinstance(f.value, ast.Name) and f.value.id == "self" and cls and f"{cls}.{f.attr}" in info \
                 and scope["self_ok"]:
+            if free_names(info[f"{cls}.{f.attr}"][0]) & (scope["bound"] - {"self"}):
+                return None
             return f"{cls}.{f.attr}", f.value
         return None
 
@@ -1863,8 +1894,13 @@ def normalise(rel, tree, inv):
     if any(isinstance(x, ast.NamedExpr) for x in ast.walk(tree)):
         done["walrus"] = hoist_walrus(tree)
     done["private-params"] = recover_private_params(tree, inv.get("private_params", {}))
-    done["constants"] = propagate_new_constants(tree, set(inv.get("globals", [])), rel)
-    done["helpers"] = inline_new_helpers(tree, set(inv.get("functions", [])), rel)
+    # a module that reaches names by reflection more often than the reference did may bind constants / helpers where no pass
+    # looks (`self.__dict__["_X"] = ..`, `globals()["T"].reverse()`, a base class made by type(..)): nothing is undone by name
+    if _reflection_count(tree) > inv.get("reflection", 0):
+        done["reflection"] = 0
+    else:
+        done["constants"] = propagate_new_constants(tree, set(inv.get("globals", [])), rel)
+        done["helpers"] = inline_new_helpers(tree, set(inv.get("functions", [])), rel)
     if "tuple_assigns" in inv:
         done["tuple-assignments"] = split_new_tuple_assignments(tree, inv.get("tuple_assigns", {}))
     done["loops"] = unroll_new_literal_loops(tree, inv.get("literal_loops", {}))
